@@ -134,25 +134,30 @@ fn ops_text(prog: &[St]) -> String {prog.iter().map(|s| s.op()).collect::<Vec<_>
 // ------------------------------------------------------------------------------------------------
 // the real pipeline
 
-fn classify(msg: &str) -> String
+/// kind of the innermost error of a diagnostic, from its structure (errkind.rs; no message text is read)
+fn classify(e: &(dyn Error + 'static)) -> String
 {
-	let nums = |s: &str| -> Vec<String> {s.split(|c: char| !c.is_ascii_digit()).filter(|x| !x.is_empty()).map(|x| x.to_owned()).collect()};
-	if msg.starts_with("address ") && msg.ends_with("is already occupied")
+	use trion::asm::directive::align::AlignError;
+	use trion::asm::directive::data::DataError;
+	use trion::asm::memory::map::PutError;
+	use trion::asm::{AsmErrorKind, SegmentError};
+	let e = crate::errkind::innermost(e);
+	if let Some(s) = e.downcast_ref::<SegmentError>()
 	{
-		format!("occupied {}", msg[8..16].to_ascii_lowercase())
+		return match s
+		{
+			SegmentError::Occupied(a) => format!("occupied {a:08x}"),
+			SegmentError::Overflow{need, have} => format!("overflow {need} {have}"),
+			SegmentError::Write(PutError::Overflow{need, have}) => format!("write {need} {have}"),
+		};
 	}
-	else if msg.starts_with("segment overflow (need") {let n = nums(msg); format!("overflow {} {}", n[0], n[1])}
-	else if msg.starts_with("segment overflow (expected") {let n = nums(msg); format!("write {} {}", n[0], n[1])}
-	else if msg.starts_with("no active segment") {"inactive".to_owned()}
-	else {format!("other:{}", msg.replace(' ', "_").replace(',', "_"))}
+	if let Some(PutError::Overflow{need, have}) = e.downcast_ref::<PutError>() {return format!("write {need} {have}");}
+	if matches!(e.downcast_ref::<DataError>(), Some(DataError::Inactive)) || matches!(e.downcast_ref::<AlignError>(), Some(AlignError::Inactive))
+		|| matches!(e.downcast_ref::<AsmErrorKind>(), Some(AsmErrorKind::Inactive)) {return "inactive".to_owned();}
+	format!("other:{}", crate::errkind::diag_kind(e).replace(' ', "_").replace(',', "_"))
 }
 
-fn innermost(e: &(dyn Error + 'static)) -> String
-{
-	let mut cur: &(dyn Error + 'static) = e;
-	while let Some(s) = cur.source() {cur = s;}
-	cur.to_string()
-}
+fn innermost<'a>(e: &'a (dyn Error + 'static)) -> &'a (dyn Error + 'static) {crate::errkind::innermost(e)}
 
 /// run a program through the real assembler; canonical `<errors> | <image>`
 fn real_run(dirs: &DirectiveList, prog: &[St]) -> String
@@ -173,17 +178,14 @@ fn real_run(dirs: &DirectiveList, prog: &[St]) -> String
 		{
 			for e in &ctx.get_errors()[from..]
 			{
-				let mut msg = e.value.to_string();
-				let mut cur = e.value.source();
-				while let Some(s) = cur {msg = s.to_string(); cur = s.source();}
-				let kind = classify(&msg);
+				let kind = classify(&e.value);
 				if e.line > nprel && e.line <= nprel + prog.len() as u32 {errs.push(format!("E{} {kind}", e.line - nprel - 1));}
 				else {errs.push(format!("L{} {kind}", e.line));}
 			}
 			ctx.get_errors().len()
 		};
 		let n = take(&ctx, &mut errs, 0);
-		if let Err(e) = ctx.close_segment() {errs.push(format!("C {}", classify(&innermost(&e))));}
+		if let Err(e) = ctx.close_segment() {errs.push(format!("C {}", classify(innermost(&e))));}
 		for t in &globals {let _ = ctx.insert_constant(&format!("g{t}"), prog[*t].value(), Realm::Global);}
 		ctx.finalize();
 		take(&ctx, &mut errs, n);
@@ -522,7 +524,7 @@ impl AOp
 	}
 }
 
-fn seg_err(e: &trion::asm::SegmentError) -> String {classify(&innermost(e))}
+fn seg_err(e: &trion::asm::SegmentError) -> String {classify(e)}
 
 fn dump_map(ctx: &Context) -> String
 {
